@@ -73,7 +73,7 @@ def gen_layout(rng, members, feature=None):
             prev = c
         lay["folders"] = parts
         lay["coders"] = [rng.choice(["copy", "lzma2", "lzma", "deflate", "bzip2", "delta+lzma2", "deflate>lzma2",
-                                     "lzma2>deflate", "bzip2>copy"]) for _ in parts]
+                                     "lzma2>deflate", "bzip2>copy", "delta+delta+lzma2", "delta+delta+delta+lzma2"]) for _ in parts]
     lay["crc"] = rng.choice(["substream", "substream", "folder", "none"])
     lay["pack_crc"] = rng.random() < 0.3
     lay["header"] = rng.choice(["raw", "raw", "lzma"])
